@@ -11,6 +11,9 @@ def main():
     from vlib import ctx
     sys.path.insert(0, ctx.REPO)
     assert "crosshair" not in sys.modules
+    import ast as _ast
+    if "args_repr" in job:
+        job["args"] = _ast.literal_eval(job["args_repr"]); job["kwargs"] = _ast.literal_eval(job.get("kwargs_repr", "{}"))
     o = job["obl"]
     ctx.PARAMS = o["params"]; ctx.MODE = job.get("mode", "check"); ctx.REAL_LOOP = bool(job.get("real_loop"))
     ctx.DETAIL.clear()
